@@ -133,7 +133,7 @@ def key_fn(case, ob, step, clause):
                 kinds.add("%s/copy-metadata-%s" % (_tname(d["type"]).split("(")[0], d["copy"]))
         detail = "/" + "+".join(sorted(kinds))
     if clause == 9:
-        names = {900: "instance", 904: "list-of-instances", 905: "write-once-until-inited", 906: "dict-keys", 908: "delegated-container", 911: "prototyped-override-lost", 914: "undeclared-attribute-lost", 916: "order-dependent-state-lost", 915: "weakref-target-lost", 912: "set-of-objects-aliasing", 913: "minlen-list-value-lost", 910: "post-init-handlers-ran-during-restore", 909: "unpickled-delegate-not-following",
+        names = {900: "instance", 904: "list-of-instances", 905: "write-once-until-inited", 906: "dict-keys", 908: "delegated-container", 911: "prototyped-override-lost", 914: "undeclared-attribute-lost", 916: "order-dependent-state-lost", 917: "container-deepcopy-graph-broken", 915: "weakref-target-lost", 912: "set-of-objects-aliasing", 913: "minlen-list-value-lost", 910: "post-init-handlers-ran-during-restore", 909: "unpickled-delegate-not-following",
                  907: "dict-values-no-copy-metadata"}
         demanded = lambda cp: op[0] == "pickle" or cp == "deep"    # children: only the trait's own metadata
         bad = sorted(names.get(q[1], str(q[1])) + ("-shared" if q[3] and demanded(q[2]) else "-differs")
